@@ -13,6 +13,9 @@ import (
 	"sort"
 	"strings"
 
+	"github.com/arana-db/parser/ast"
+	"github.com/arana-db/parser/test_driver"
+
 	"seata.apache.org/seata-go/pkg/datasource/sql/parser"
 	"seata.apache.org/seata-go/pkg/datasource/sql/types"
 
@@ -31,7 +34,11 @@ type Op struct {
 	Args     []atrun.Arg `json:"args,omitempty"`
 	Query    bool        `json:"query,omitempty"`
 	Prepared bool        `json:"prepared,omitempty"`
+	Plain    bool        `json:"plain,omitempty"`     // inside a global-transaction segment: use a context WITHOUT the xid for this operation
+	ReadOnly bool        `json:"read_only,omitempty"` // begin: sql.TxOptions
+	Iso      int         `json:"iso,omitempty"`       // begin: sql.IsolationLevel (0 default)
 	// filled by Describe:
+	Expect  string `json:"expect,omitempty"`   // the operation lies in the input predicate of a listed finding: "<pred>=<expected error class>" (fails, no effect)
 	SQLType string `json:"sql_type,omitempty"` // identifier of the repo's types.SQLType constant the repo's own parser assigns ("unparsed" when it rejects the text)
 }
 
@@ -48,6 +55,10 @@ type Program struct {
 	Params string    `json:"params,omitempty"`
 	Setup  []string  `json:"setup"`
 	Segs   []Segment `json:"segs"`
+	// XAMix: also run through the XA proxy although there is a global transaction (exactly one, holding one
+	// autocommit statement on the pool; phase two commit is delivered right after it); Version: SELECT VERSION()
+	XAMix   bool   `json:"xa_mix,omitempty"`
+	Version string `json:"version,omitempty"`
 }
 
 var sqlTypeNames = map[types.SQLType]string{
@@ -56,11 +67,47 @@ var sqlTypeNames = map[types.SQLType]string{
 	types.SQLTypeInsertOnDuplicateUpdate: "SQLTypeInsertOnDuplicateUpdate", types.SQLTypeMulti: "SQLTypeMulti",
 }
 
-// Describe classifies every statement with the repository's own parser.
+type strLitFinder struct{ found bool }
+
+func (f *strLitFinder) Enter(n ast.Node) (ast.Node, bool) {
+	if v, ok := n.(*test_driver.ValueExpr); ok && (v.Kind() == test_driver.KindString || v.Kind() == test_driver.KindBytes) {
+		f.found = true
+	}
+	return n, false
+}
+func (f *strLitFinder) Leave(n ast.Node) (ast.Node, bool) { return n, true }
+
+func whereHasStringLiteral(pc *types.ParseContext) bool {
+	var w ast.ExprNode
+	switch {
+	case pc.UpdateStmt != nil:
+		w = pc.UpdateStmt.Where
+	case pc.DeleteStmt != nil:
+		w = pc.DeleteStmt.Where
+	}
+	if w == nil {
+		return false
+	}
+	f := &strLitFinder{}
+	w.Accept(f)
+	return f.found
+}
+
+func interpolates(params string) bool {
+	if params == "" {
+		return true
+	}
+	return strings.Contains(params, "interpolateParams=true")
+}
+
+// Describe classifies every statement with the repository's own parser and
+// marks the operations inside the input predicate of a listed finding with the
+// outcome the finding describes.
 func Describe(p *Program) {
 	for si := range p.Segs {
 		for oi := range p.Segs[si].Ops {
 			o := &p.Segs[si].Ops[oi]
+			o.Expect = ""
 			if o.K != "stmt" {
 				continue
 			}
@@ -74,25 +121,41 @@ func Describe(p *Program) {
 			} else {
 				o.SQLType = fmt.Sprintf("SQLType#%d", int(pc.SQLType))
 			}
+			xid := p.Segs[si].Gtx && !o.Plain
+			dml := pc.SQLType == types.SQLTypeUpdate || pc.SQLType == types.SQLTypeDelete
+			switch {
+			case xid && dml && !o.Query && (o.Prepared || (len(o.Args) > 0 && !interpolates(p.Params))):
+				// Stmt.ExecContext inside a global transaction: the image builders have no connection (or, before the
+				// table is in the meta cache, no schema name to look it up)
+				o.Expect = "stmt.prepared-in-gtx=seata:invalid-conn|seata:no-table-meta"
+			case xid && (pc.SQLType == types.SQLTypeUpdate || pc.SQLType == types.SQLTypeDelete) && whereHasStringLiteral(pc):
+				o.Expect = "where.string-literal=sql:1054"
+			}
 		}
 	}
 }
 
 // Scenario builds the atrun scenario of a program for a mode (at|xa|bare).
 func Scenario(p *Program, mode string) atrun.Scenario {
-	sc := atrun.Scenario{Name: p.Name, Mode: mode, Params: p.Params, Setup: p.Setup}
+	sc := atrun.Scenario{Name: p.Name, Mode: mode, Params: p.Params, Setup: p.Setup, Version: p.Version}
 	sc.Config.StepLimitMs = 5000
 	sc.Steps = append(sc.Steps, atrun.Step{Op: "query", SQL: "SELECT 1"}) // warm-up: opens the handle (not compared)
 	conv := func(o Op) atrun.Step {
 		switch o.K {
 		case "begin":
-			return atrun.Step{Op: "tx_begin", Conn: o.Conn}
+			return atrun.Step{Op: "tx_begin", Conn: o.Conn, NoCtx: o.Plain, ReadOnly: o.ReadOnly, Isolation: o.Iso}
 		case "commit":
 			return atrun.Step{Op: "tx_commit", Conn: o.Conn}
 		case "rollback":
 			return atrun.Step{Op: "tx_rollback", Conn: o.Conn}
 		}
-		st := atrun.Step{Op: "exec", Conn: o.Conn, SQL: o.SQL, Args: o.Args, Prepared: o.Prepared}
+		st := atrun.Step{Op: "exec", Conn: o.Conn, SQL: o.SQL, Args: o.Args, Prepared: o.Prepared, NoCtx: o.Plain}
+		if o.Expect != "" && mode == "bare" {
+			// the reference run: the finding says the statement fails WITHOUT effect, so the bare
+			// driver does not execute it (everything after it is still compared)
+			// (a SELECT 1 on the same connection keeps the pool history of the two runs alike)
+			return atrun.Step{Op: "query", Conn: o.Conn, SQL: "SELECT 1", NoCtx: o.Plain}
+		}
 		if o.Query {
 			st.Op = "query"
 		}
@@ -110,6 +173,9 @@ func Scenario(p *Program, mode string) atrun.Scenario {
 			g.Steps = append(g.Steps, conv(o))
 		}
 		sc.Steps = append(sc.Steps, g)
+		if mode == "xa" {
+			sc.Steps = append(sc.Steps, atrun.Step{Op: "phase2", Action: "commit", Gtx: -1, Branch: -1})
+		}
 	}
 	return sc
 }
@@ -162,12 +228,13 @@ type ModeObs struct {
 	OpenTx   int                `json:"open_tx"`
 	Locks    int                `json:"locks"`
 	PoolRet  int                `json:"pool_returns_in_tx"`
+	Phase2   []string           `json:"phase2,omitempty"`
 }
 
 // FlatOp is an op with its position.
 type FlatOp struct {
 	Op
-	Gtx bool `json:"gtx"`
+	Gtx bool `json:"gtx"` // the operation's context carries an xid
 	Seg int  `json:"seg"`
 }
 
@@ -179,6 +246,7 @@ type Case struct {
 	AT      *ModeObs `json:"at"`
 	XA      *ModeObs `json:"xa,omitempty"`
 	Oracle  []string `json:"oracle"` // violations of the property's own statement on the real runs
+	Known   []string `json:"known"`  // finding predicates whose described outcome was observed
 	Feat    []string `json:"feat"`   // features (evidence distribution)
 }
 
@@ -251,6 +319,8 @@ func tokenize(tr *atrun.Trace, meta map[int]bool, st atrun.StepResult, business 
 		case d.Kind == fakedb.JReset || d.Kind == fakedb.JConnect || d.Kind == fakedb.JClose:
 		case d.Kind == fakedb.JBegin || d.Kind == fakedb.JCommit || d.Kind == fakedb.JRollback:
 			toks = append(toks, Tok{T: d.Kind, Ok: ok})
+		case !isStmt && d.Kind == fakedb.JExec && strings.HasPrefix(d.SQL, "SET TRANSACTION ISOLATION LEVEL"):
+			toks = append(toks, Tok{T: "ISO", Ok: ok})
 		case isStmt && d.SQL == business:
 			toks = append(toks, Tok{T: "BIZ:" + d.Kind, Ok: ok, Nz: nz})
 		case isInfoSchema(d.SQL):
@@ -308,11 +378,19 @@ func observe(p *Program, mode string) *ModeObs {
 			mo.GtxClass = append(mo.GtxClass, g.Class+"/"+g.ErrClass)
 			for i, o := range sg.Ops {
 				if i < len(g.Sub) {
-					add(g.Sub[i], o, false)
+					add(g.Sub[i], o, o.Plain)
 				}
 			}
 		}
 		si++
+		if mode == "xa" {
+			if si < len(tr.Steps) {
+				for _, r := range tr.Steps[si].Phase2 {
+					mo.Phase2 = append(mo.Phase2, fmt.Sprintf("%s/replied=%v/status=%d", r.Class, r.Replied, r.Status))
+				}
+			}
+			si++
+		}
 	}
 	for _, d := range tr.FinalDump {
 		if strings.ToLower(d.Name) != "undo_log" {
@@ -349,7 +427,7 @@ func eraseExtra(toks []Tok, bracket bool) []Tok {
 	for _, t := range toks {
 		switch {
 		case t.T == "IMG", t.T == "META", t.T == "SP", t.T == "UNDO", t.T == "UNDOP", strings.HasPrefix(t.T, "TC:"):
-		case bracket && (t.T == "BEGIN" || t.T == "COMMIT"):
+		case bracket && (t.T == "BEGIN" || t.T == "COMMIT" || t.T == "ROLLBACK"):
 		default:
 			out = append(out, t)
 		}
@@ -372,6 +450,7 @@ func tokStr(ts []Tok) string {
 // oracle evaluates C16's own statement on the real runs.
 func oracle(c *Case) {
 	flat := c.Ops
+	known := map[string]bool{}
 	check := func(name string, m *ModeObs) {
 		if m == nil {
 			return
@@ -387,18 +466,50 @@ func oracle(c *Case) {
 		inTx := map[string]bool{}
 		for i, o := range flat {
 			a, b := m.Steps[i], c.Bare.Steps[i]
-			where := fmt.Sprintf("%s op %d (%s %s gtx=%v conn=%q prepared=%v) [%s]", name, i, o.K, o.SQLType, o.Gtx, o.Conn, o.Prepared, o.SQL)
+			where := fmt.Sprintf("%s op %d (%s %s xid-ctx=%v conn=%q prepared=%v) [%s]", name, i, o.K, o.SQLType, o.Gtx, o.Conn, o.Prepared, o.SQL)
+			if o.Expect != "" && name == "at" {
+				// inside a listed finding's predicate: the DESCRIBED outcome must be observed (the bare
+				// reference did not run the statement); anything else in the region is a violation
+				pred, want := o.Expect, ""
+				if j := strings.IndexByte(o.Expect, '='); j >= 0 {
+					pred, want = o.Expect[:j], o.Expect[j+1:]
+				}
+				applied := false
+				for _, t := range a.Toks {
+					if (t.T == "BIZ:EXEC" || t.T == "BIZ:STMT_EXEC") && t.Ok {
+						applied = true
+					}
+				}
+				got := a.ErrClass
+				if got == "other" && strings.Contains(a.ErrText, "columnMeta") {
+					got = "seata:no-table-meta"
+				}
+				okClass := false
+				for _, w := range strings.Split(want, "|") {
+					okClass = okClass || w == got
+				}
+				if a.Class != "err" || !okClass || applied {
+					c.Oracle = append(c.Oracle, fmt.Sprintf("%s: inside the predicate of finding %s the outcome is %s/%s (applied=%v), the finding describes err/%s without effect",
+						where, pred, a.Class, got, applied, want))
+				} else {
+					known[pred] = true
+				}
+				continue
+			}
 			if d := sameResult(a, b); d != "" {
 				c.Oracle = append(c.Oracle, where+": caller-visible result differs from the bare driver: "+d)
 			}
-			if !o.Gtx {
+			switch {
+			case !o.Gtx:
 				if !reflect.DeepEqual(a.Raw, b.Raw) {
 					c.Oracle = append(c.Oracle, where+": outside a global transaction the statements reaching the database differ from the bare run")
 				}
 				if len(a.TC) > 0 {
 					c.Oracle = append(c.Oracle, where+": coordinator traffic outside a global transaction: "+strings.Join(a.TC, ","))
 				}
-			} else {
+			case name == "xa":
+				// the XA branch protocol itself is C17's subject; here only the result (above) and the data (below)
+			default:
 				bracket := o.K == "stmt" && !inTx[o.Conn]
 				ea, eb := eraseExtra(a.Toks, bracket), eraseExtra(b.Toks, false)
 				if !reflect.DeepEqual(ea, eb) {
@@ -415,9 +526,19 @@ func oracle(c *Case) {
 		if !reflect.DeepEqual(m.Dump, c.Bare.Dump) {
 			c.Oracle = append(c.Oracle, name+": committed data at the end differs from the bare run")
 		}
+		if m.PoolRet > c.Bare.PoolRet {
+			c.Oracle = append(c.Oracle, fmt.Sprintf("%s: a connection went back to the pool inside an open local transaction (%d times; bare run %d)", name, m.PoolRet, c.Bare.PoolRet))
+		}
+		if m.OpenTx > c.Bare.OpenTx || m.Locks > c.Bare.Locks {
+			c.Oracle = append(c.Oracle, fmt.Sprintf("%s: %d transactions / %d row locks are still open at the end (bare run %d / %d)", name, m.OpenTx, m.Locks, c.Bare.OpenTx, c.Bare.Locks))
+		}
 	}
 	check("at", c.AT)
 	check("xa", c.XA)
+	for k := range known {
+		c.Known = append(c.Known, k)
+	}
+	sort.Strings(c.Known)
 }
 
 func hasGtx(p *Program) bool {
@@ -432,15 +553,15 @@ func hasGtx(p *Program) bool {
 // RunProgram runs one program through the three drivers.
 func RunProgram(p Program) Case {
 	Describe(&p)
-	c := Case{Program: p, Oracle: []string{}, Feat: []string{}}
+	c := Case{Program: p, Oracle: []string{}, Feat: []string{}, Known: []string{}}
 	for si, sg := range p.Segs {
 		for _, o := range sg.Ops {
-			c.Ops = append(c.Ops, FlatOp{Op: o, Gtx: sg.Gtx, Seg: si})
+			c.Ops = append(c.Ops, FlatOp{Op: o, Gtx: sg.Gtx && !o.Plain, Seg: si})
 		}
 	}
 	c.Bare = observe(&p, "bare")
 	c.AT = observe(&p, "at")
-	if !hasGtx(&p) {
+	if !hasGtx(&p) || p.XAMix {
 		c.XA = observe(&p, "xa")
 	}
 	oracle(&c)
@@ -461,8 +582,17 @@ func RunProgram(p Program) Case {
 			if o.Conn != "" {
 				feat[g+".named-conn"] = true
 			}
+			if o.Plain {
+				feat["in.plain-ctx-stmt"] = true
+			}
+			if o.Expect != "" {
+				feat["finding."+strings.SplitN(o.Expect, "=", 2)[0]] = true
+			}
 		} else {
 			feat[g+".tx-"+o.K] = true
+			if o.ReadOnly || o.Iso != 0 {
+				feat["tx-options"] = true
+			}
 		}
 	}
 	for i, s := range c.Bare.Steps {
@@ -517,6 +647,7 @@ func Main(args map[string]string) {
 	gen(hutil.ArgInt(args, "nout", 40), "clean-out", GenOutside)
 	gen(hutil.ArgInt(args, "nin", 40), "clean-in", GenInside)
 	gen(hutil.ArgInt(args, "nmal", 20), "malformed", GenMalformed)
+	gen(hutil.ArgInt(args, "nxa", 20), "xa-mix", GenXAMix)
 	nf := hutil.ArgInt(args, "nfind", 4)
 	for _, pred := range FindingPreds {
 		pred := pred
